@@ -193,6 +193,27 @@ class Gen:
                 used.add(x["name"])
         return stmts, used
 
+    def wrap(self, stmt):
+        """put a statement (a resource use or a call) at some nesting depth: the call graph and the set of
+        used globals must be found through Block / If / Switch / Loop bodies and continuing blocks"""
+        r = self.r
+        c = r.below(10)
+        self.nwrap = getattr(self, "nwrap", 0) + 1
+        k = "k%d" % self.nwrap
+        if c < 4:
+            return stmt
+        if c == 4:
+            return "if (acc.x >= -1.0) { %s }" % stmt
+        if c == 5:
+            return "if (acc.x < -1.0) { acc.x = 0.0; } else { { %s } }" % stmt
+        if c == 6:
+            return "var %s = 0; loop { if (%s >= 1) { break; } %s continuing { %s = %s + 1; } }" % (k, k, stmt, k, k)
+        if c == 7:
+            return "var %s = 0; loop { if (%s >= 1) { break; } continuing { %s = %s + 1; %s } }" % (k, k, k, k, stmt)
+        if c == 8:
+            return "switch (i32(acc.x)) { case 7: { acc.x = 1.0; } default: { %s } }" % stmt
+        return "for (var %s = 0; %s < 1; %s = %s + 1) { if (acc.x > -5.0) { %s } }" % (k, k, k, k, stmt)
+
     # ------------------------------------------------------------- helpers
     def helpers(self):
         r = self.r
@@ -203,7 +224,7 @@ class Gen:
             callees = [h for h in self.help if stages <= h["stages"] and r.chance(1, 2)]
             stmts, used = self.pick_uses(stages, 3)
             name = "hf" + "abc"[i] + "x"
-            body = ["var acc = a0;"] + stmts + ["acc = %s(acc);" % h["name"] for h in callees] + ["return acc;"]
+            body = ["var acc = a0;"] + [self.wrap(x) for x in stmts] + [self.wrap("acc = %s(acc);" % h["name"]) for h in callees] + ["return acc;"]
             self.decls.append("fn %s(a0: vec4<f32>) -> vec4<f32> { %s }" % (name, " ".join(body)))
             reach = set(used)
             pairs = set(self.cur_pairs)
@@ -391,7 +412,8 @@ class Gen:
                 while wg[0] * wg[1] * wg[2] > 256:
                     wg[r.below(3)] = 1
                 attr += " @workgroup_size(%s)" % ", ".join(str(x) for x in wg[:dims])
-            body = ["var acc = vec4<f32>(0.0);"] + in_stmts + stmts + ["acc = %s(acc);" % h["name"] for h in callees] + [ret_stmt]
+            body = (["var acc = vec4<f32>(0.0);"] + in_stmts + [self.wrap(x) for x in stmts] +
+                    [self.wrap("acc = %s(acc);" % h["name"]) for h in callees] + [ret_stmt])
             self.decls += in_decls + out_decls
             self.decls.append("%s fn %s(%s)%s { %s }" % (attr, name, ", ".join(ins_params), ret_t, " ".join(body)))
             self.truth["eps"].append({"name": name, "stage": st, "workgroup": wg, "inputs": in_ios, "outputs": out_ios,
